@@ -429,6 +429,11 @@ def _main_run(mod, pid, args, seed):
             print(fatal[0]["fatal"])
             print("harness error: worker died")
             return 2
+        fuzz_info = None
+        fuzz_seconds = float(os.environ.get("VERIF_FUZZ_SECONDS", "0") or 0) or (getattr(mod, "FUZZ_SECONDS", 0) * args.scale if tier == "thorough" else 0)
+        if getattr(mod, "FUZZ_MODULES", None) and fuzz_seconds > 0:
+            fuzz_results, fuzz_info = _fuzz_stage(PROPS[pid], tier, seed, nworkers, fuzz_seconds, active_known)
+            results = list(results) + fuzz_results
         agg = _aggregate(results)
 
         # 3. shrink new buckets
@@ -507,6 +512,8 @@ def _main_run(mod, pid, args, seed):
     }
     if getattr(mod, "EXHAUSTIVE_INNER", None):
         evidence["coverage"]["exhaustive_inner"] = mod.EXHAUSTIVE_INNER
+    if fuzz_info is not None:
+        evidence["coverage"]["coverage_guided_stage"] = fuzz_info
     if hasattr(mod, "finish_evidence"):
         mod.finish_evidence(evidence, agg, tier)
     if not args.no_evidence:
@@ -522,6 +529,38 @@ def _main_run(mod, pid, args, seed):
         print("harness error: vacuous run (evaluations=%d distinct_nontrivial=%d)" % (agg["evals"], distinct))
         return 2
     return exit_code
+
+
+def _fuzz_stage(modname, tier, seed, nproc, seconds, active_known):
+    """coverage-guided stage (atheris / libFuzzer driving the property's strategy through fuzz_one_input, rope's modules
+    instrumented): nproc independent processes with different seeds and empty corpora; their outcomes are merged like the
+    Hypothesis workers'.  A process that dies or cannot import atheris contributes nothing (recorded, never a violation)."""
+    import pickle
+    import subprocess
+    import sys
+
+    outdir = fresh_dir("fuzz")
+    procs = []
+    env = dict(os.environ)
+    for k in range(nproc):
+        outfile = os.path.join(outdir, "w%d.pkl" % k)
+        cmd = [sys.executable, "-B", "-m", "vlib.fuzzworker", modname, tier, str(seed), str(k), str(seconds), outfile, json.dumps(list(active_known))]
+        procs.append((outfile, subprocess.Popen(cmd, cwd=ROOT, env=env, stdout=subprocess.DEVNULL, stderr=subprocess.DEVNULL)))
+    results, execs, dead = [], 0, 0
+    for outfile, pr in procs:
+        try:
+            pr.wait(timeout=seconds + 300)
+        except subprocess.TimeoutExpired:
+            pr.kill()
+        try:
+            with open(outfile, "rb") as f:
+                r = pickle.load(f)
+            execs += r.pop("fuzz_execs", 0)
+            results.append(r)
+        except Exception:
+            dead += 1
+    rmtree(outdir)
+    return results, {"tool": "atheris (libFuzzer) + hypothesis.fuzz_one_input", "processes": nproc, "seconds_each": seconds, "executions": execs, "processes_without_result": dead}
 
 
 def _aggregate(results):
